@@ -15,7 +15,9 @@ import itertools
 import json
 import math
 import os
+import signal
 import warnings
+from collections import Counter
 
 import networkx as nx
 import numpy as np
@@ -230,12 +232,54 @@ def strip_flags(v):
     return v
 
 
-def impl(c):
+class NoAnswer(BaseException):
+    """the CPU budget of one library call expired (not an Exception: nothing in the library or the harness may swallow it)"""
+
+
+def _vt_alarm(signum, frame):
+    raise NoAnswer()
+
+
+# every anchored function is a terminating loop over <= 12 nodes / 12 edges (model: sssp_terminates, bfs_fuel_suffices) and
+# answers within milliseconds; a call that has not answered after CALL_CPU_S seconds of CPU time of THIS process
+# (ITIMER_VIRTUAL: a loaded host cannot trip it) is repeated once with five times the budget, and only a second expiry is
+# the answer "no-answer" (reported as the failure class no-answer-within-cpu-budget).  After NOANSWER_CAP confirmed
+# expiries of one function it is not called again in this run (the requests are counted as skipped, not as held).
+CALL_CPU_S = 2.0
+NOANSWER_CAP = 2
+NOANSWER = Counter()
+
+
+def _timed(f, seconds):
+    old = signal.signal(signal.SIGVTALRM, _vt_alarm)
+    try:
+        signal.setitimer(signal.ITIMER_VIRTUAL, seconds)
+        try:
+            return f()
+        finally:
+            signal.setitimer(signal.ITIMER_VIRTUAL, 0)
+    finally:
+        signal.signal(signal.SIGVTALRM, old)
+
+
+def impl(c, budget=CALL_CPU_S, retry=True, force=False):
     nodes, edges, H = build_case(c)
+    if NOANSWER[c["f"]] >= NOANSWER_CAP and not force:
+        return {"out": "skipped"}, nodes, edges
     with warnings.catch_warnings():
         warnings.simplefilter("ignore")
         try:
-            v = call_impl(c, H)
+            try:
+                v = _timed(lambda: call_impl(c, H), budget)
+            except NoAnswer:
+                if not retry:
+                    raise
+                nodes, edges, H = build_case(c)
+                v = _timed(lambda: call_impl(c, H), 5 * budget)
+        except NoAnswer:
+            if not force:
+                NOANSWER[c["f"]] += 1
+            return {"out": "err:no-answer", "msg": f"no answer within {budget * (5 if retry else 1):g} s of CPU time"}, nodes, edges
         except Infra:
             raise
         except Exception as ex:  # noqa
@@ -363,6 +407,11 @@ def pred(c, r, nodes, edges):
     """clauses of C14 evaluated on the implementation's answer r; returns [(failure_class, detail)]"""
     f = c["f"]
     fails = []
+    if r["out"] == "skipped":
+        return []
+    if r["out"] == "err:no-answer":
+        return [("no-answer-within-cpu-budget", f"{SITE[f]} did not return: {r.get('msg', '')} on a network of {len(nodes)} nodes / "
+                 f"{len(edges)} edges (the modelled loop terminates within |nodes|+1 rounds)")]
     if "dinet" in c:
         if r["out"] != "ok":
             return [("raises-" + r["out"][4:], f"{SITE[f]} raised {r['out']} on a DiHypergraph: {r.get('msg', '')}")]
@@ -641,10 +690,13 @@ def shrink_case(c, cls, budget=150):
     """greedy: drop edges, then nodes, then members (tail / head members for a directed network), while the predicate
     still fails with the same class"""
     key = "dinet" if "dinet" in c else "net"
+    hang = cls == "no-answer-within-cpu-budget"
+    if hang:
+        budget = min(budget, 40)
 
     def fails(cand):
         try:
-            r, nodes, edges = impl(cand)
+            r, nodes, edges = impl(cand, budget=0.5, retry=False, force=True)
             return any(k == cls for k, _ in pred(cand, r, nodes, edges))
         except Exception:  # noqa
             return False
@@ -709,8 +761,9 @@ def run_batch(ctx, cases, shrink=True):
     for c in cases:
         check_size(c)
         r, nodes, edges = impl(c)
-        ctx.evaluations += 1
-        ctx.stats["fn:" + c["f"] + (":directed" if "dinet" in c else "")] += 1
+        if r["out"] != "skipped":
+            ctx.evaluations += 1
+            ctx.stats["fn:" + c["f"] + (":directed" if "dinet" in c else "")] += 1
         if "dinet" not in c and any(not ms for _, ms in edges):
             ctx.stats["requests_on_hypergraph_with_empty_edge"] += 1
         if r["out"] != "ok":
@@ -725,9 +778,13 @@ def run_batch(ctx, cases, shrink=True):
             seen.add(cls)
             known = any(v["site"] == SITE[c["f"]] and v["failure_class"] == cls for v in ctx.violations)
             small = shrink_case(c, cls) if (shrink and not known) else c
-            ctx.violation(SITE[c["f"]], cls, dict(small, python=python_replay(small)), detail=detail if small is c else
-                          "; ".join(d for k, d in pred(small, *impl(small)) if k == cls)[:600] or detail)
-        results.append((r, bool(fails)))
+            if small is not c:      # the shrunk case must reproduce the class under the full budget, else keep the original
+                d2 = "; ".join(d for k, d in pred(small, *impl(small, force=True)) if k == cls)[:600]
+                small, detail = (small, d2) if d2 else (c, detail)
+            ctx.violation(SITE[c["f"]], cls, dict(small, python=python_replay(small)), detail=detail)
+        if r["out"] == "skipped":
+            ctx.stats["skipped-after-no-answer:" + c["f"]] += 1
+        results.append((r, bool(fails) or r["out"] == "skipped"))
         ctx.sample({"request": c, "impl": {k: v for k, v in r.items() if k != "msg"}}, cap=3)
     resps = run_driver(DRIVER, cases, timeout=DRIVER_TIMEOUT)
     dis = []
@@ -745,7 +802,7 @@ def run_batch(ctx, cases, shrink=True):
         if rc.get("out") == "ok":
             rc["v"] = strip_flags(rc["v"])
         if failed:
-            ctx.stats["predicate-failed(not compared)"] += 1
+            ctx.stats["predicate-failed(not compared)"] += r["out"] != "skipped"
             continue
         if not same(c["f"], rc, mc):
             dis.append((c, rc, mc))
@@ -846,7 +903,7 @@ def run(ctx):
             extra = [c for c in extra if c["f"] in funcs] or extra
         for c in extra:
             r, nodes, edges = impl(c)
-            ctx.evaluations += 1
+            ctx.evaluations += r["out"] != "skipped"
             for cls, detail in pred(c, r, nodes, edges):
                 ctx.violation(SITE[c["f"]], cls, dict(c, python=python_replay(c)), detail=detail)
 
